@@ -82,6 +82,13 @@ pub const STATEMENTS: &[&str] = &[
     // no descriptor left for the file being opened: the file must be neither created nor truncated
     // (descriptor 9 is closed, so nothing is saved first; descriptors 0-3 are taken)
     "exec 3>f3; ulimit -n 4; echo x 9>newf; echo $?", "echo keep > f1; exec 3>f3; ulimit -n 4; : 9>f1; echo $?; exec 3>&-; cat f1",
+    // a stopped child that ignores SIGCONT is resumed by it all the same (diagnostics of `kill` are
+    // discarded: on a real kernel the child may be gone before the signals are sent)
+    "trap '' CONT; (exit 3) & p=$!; kill -s STOP $p 2>&-; kill -s CONT $p 2>&-; wait $p; echo $?; trap - CONT; unset p",
+    // a subshell whose last command was killed by a signal dies of that signal itself - and only
+    // itself: the main shell's trap for it must not run again
+    "trap 'echo got' TERM; (trap '' TERM; (trap - TERM; kill -s TERM 0; echo alive)); echo $?; trap - TERM",
+    "trap 'echo got' USR1; (trap '' USR1; (trap - USR1; kill -s USR1 0; echo alive); kill -l $?); echo $?; trap - USR1",
     // default actions: a subshell (command traps reset) sends the signal to the whole process
     // group; the main shell survives through its trap, the subshell dies or not (IO is left out:
     // on Linux it is the same signal as POLL and libc's sig2str names it POLL)
